@@ -1,34 +1,48 @@
 /-!
 # Who holds a username (server/src/c2s/router.rs: `register_connection`, `unregister_connection`)
 
-Each of the two operations touches the connection map in **one** critical section (a DashMap `entry`): registration checks
-"nobody holds the name" and inserts under the same guard; unregistration removes the connection and, if it was the last one,
-the whole entry under the same guard, and the clean-up that follows never touches the map again (repair 823c396; the
-segment structure is read from the source, `Generated/Steps.lean`).  So every interleaving of connections identifying and
-ending — on any number of worker threads — is a sequence of these atomic steps.
+Registration checks "no entry for the name" and inserts under one DashMap entry guard.  The end of a connection removes it under
+one guard; when it was the user's last connection the *empty* entry stays in the map — the name is reserved — while the
+clean-up that takes the user out of its channels runs, and is removed when the clean-up has finished (repairs 823c396, ad38d09;
+the segment structure is read from the source, `Generated/Steps.lean`).  So every interleaving of connections identifying,
+ending and clean-ups finishing — on any number of worker threads — is a sequence of these atomic steps.
 -/
 namespace Narwhal.Names
 
 abbrev Name := Nat
 
-/-- `connections`: username ↦ handlers of its live connections -/
-abbrev Router := Name → List Nat
+/-- `connections`: username ↦ `none` (no entry) or the handlers of its live connections (`some []` = reserved by a clean-up) -/
+abbrev Router := Name → Option (List Nat)
 
 inductive Op
   | identify (name : Name) (k : Nat)     -- IDENTIFY on connection `k` (exclusive registration)
   | ended (name : Name) (k : Nat)        -- connection `k`, registered under `name`, ends for whatever reason
+  | cleaned (name : Name)                -- the clean-up started by the end of the name's last connection has finished
 
 def step (r : Router) : Op → Router
-  | .identify name k => if (r name).isEmpty then (fun n => if n = name then [k] else r n) else r
-  | .ended name k => fun n => if n = name then (r name).filter (· ≠ k) else r n
+  | .identify name k => match r name with
+    | none => fun n => if n = name then some [k] else r n
+    | some _ => r
+  | .ended name k => match r name with
+    | none => r
+    | some l => fun n => if n = name then some (l.filter (· ≠ k)) else r n
+  | .cleaned name => match r name with
+    | some [] => fun n => if n = name then none else r n
+    | _ => r
 
 /-- was the registration acknowledged? -/
 def accepted (r : Router) : Op → Bool
-  | .identify name _ => (r name).isEmpty
-  | .ended _ _ => true
+  | .identify name _ => (r name).isNone
+  | _ => true
+
+/-- the live holders of a name -/
+def holders (r : Router) (name : Name) : List Nat := (r name).getD []
+
+/-- the user's memberships may still exist: a live holder, or a clean-up that has not finished -/
+def taken (r : Router) (name : Name) : Bool := (r name).isSome
 
 def run (r : Router) (ops : List Op) : Router := ops.foldl step r
 
-def init : Router := fun _ => []
+def init : Router := fun _ => none
 
 end Narwhal.Names
